@@ -1,0 +1,19 @@
+//go:build verif
+
+package control_loop
+
+// Contracts for package control_loop, read by /verif/govc (comment-only file, compiled only with -tags verif).
+
+//@ pure clampInt(x int, lo int, hi int) int = x < lo ? lo : (x > hi ? hi : x)
+//@ pure loopWF(l ControlLoop) bool = l != nil && (l is *PidControlLoop ==> l.(*PidControlLoop) != nil && l.(*PidControlLoop).pidLoop != nil) && (l is *DirectControlLoop ==> l.(*DirectControlLoop) != nil)
+
+//@ func (*DirectControlLoop).Cycle
+//@   props C01 C04
+//@   ensures[range C01 C04] 0 <= result && result <= 255
+//@   ensures[C04.direct] l.maxPwmChangePerCycle == nil ==> result == clampInt(target, 0, 255)
+//@   modifies l.lastTime
+
+//@ func (*PidControlLoop).Cycle
+//@   props C01 C04
+//@   requires l.pidLoop != nil
+//@   modifies l.pidLoop.integral, l.pidLoop.error, l.pidLoop.lastTime
